@@ -65,6 +65,7 @@ type Engine struct {
 	specOut   []specRet
 	facts     []*Term // side facts produced while evaluating specs (pure callee postconditions)
 	preHeap   *Heap
+	oldCurHeap *Heap // heap current at the old() call (for locals of the specification)
 	entryArgs []Val
 	onReturn  func(st *State, fr *Frame, results []Val)
 	inlineCap int
